@@ -21,7 +21,7 @@ class _:
 @klass("twisted.DelayedCall")
 class _:
     external = True
-    fields = {"active": "bool", "delay": ("float", False)}
+    fields = {"is_active": "bool", "delay": ("float", False)}
 
 
 @klass("twisted.LoopingCall")
@@ -61,6 +61,7 @@ def fire(eng, d, how, node=None):
     eng.callcount['fire'] = n
     H.note_ref(eng, d)
     called = H.heap_read(eng, d, 'called')
+    eng.B.checkpoint(eng, 'fire:%s#%d' % (how, site_ordinal(eng, node, how)))
     eng.prove('pre@Deferred.%s#%d:not-already-called' % (how, n), z3.Not(called.t), kind='pre',
               props=eng.contract.props if eng.contract else None)
     guard = (eng.contract.extra.get('fires', {}) if eng.contract else {}).get(how)
@@ -74,6 +75,67 @@ def fire(eng, d, how, node=None):
     eng.trace_event('Fired', d, how)
     H.external_call(eng, 'Deferred.%s' % how)
     return VNONE
+
+
+def site_ordinal(eng, node, attr):
+    """source-order ordinal (1-based) of this `.attr(...)` call among those in the enclosing function (structural anchor)"""
+    fr = getattr(eng, 'cur_frame', None)
+    f = fr
+    while f is not None and f.func is None:
+        f = f.parent
+    if f is None or node is None:
+        return 0
+    fi = f.func
+    cache = getattr(fi, '_call_sites', None)
+    if cache is None:
+        cache = {}
+        counts = {}
+        stack = list(reversed(fi.node.body))
+        order = []
+
+        def visit(n):
+            if isinstance(n, (ast.FunctionDef, ast.Lambda, ast.ClassDef)) and n is not fi.node:
+                return
+            for ch in ast.iter_child_nodes(n):
+                visit(ch)
+            if isinstance(n, ast.Call) and isinstance(n.func, ast.Attribute):
+                order.append(n)
+        for st_ in fi.node.body:
+            visit(st_)
+        order.sort(key=lambda n: (n.lineno, n.col_offset))
+        for n in order:
+            a = n.func.attr
+            counts[a] = counts.get(a, 0) + 1
+            cache[id(n)] = counts[a]
+        fi._call_sites = cache
+    return cache.get(id(node), 0)
+
+
+def site_ordinal_name(eng, node, name):
+    """like site_ordinal for plain-name calls f(...)"""
+    fr = getattr(eng, 'cur_frame', None)
+    f = fr
+    while f is not None and f.func is None:
+        f = f.parent
+    if f is None or node is None:
+        return 0
+    fi = f.func
+    order = []
+
+    def visit(n):
+        if isinstance(n, (ast.FunctionDef, ast.Lambda, ast.ClassDef)) and n is not fi.node:
+            return
+        for ch in ast.iter_child_nodes(n):
+            visit(ch)
+        if isinstance(n, ast.Call) and isinstance(n.func, ast.Name) and n.func.id == name:
+            order.append(n)
+    for st_ in fi.node.body:
+        visit(st_)
+    order.sort(key=lambda n: (n.lineno, n.col_offset))
+    for i, n in enumerate(order):
+        if n is node:
+            return i + 1
+    return 0
 
 
 def deferred_method(eng, d, attr, args, kwargs, fr, node):
@@ -93,6 +155,8 @@ def deferred_method(eng, d, attr, args, kwargs, fr, node):
         return VNONE
     if attr in ('addCallback', 'addErrback', 'addBoth', 'addCallbacks', 'addTimeout'):
         # registering on a fired Deferred runs the callable now
+        if attr == 'addCallbacks' and (len(args) < 2):
+            args = [kwargs.get('callback', args[0] if args else None), kwargs.get('errback')] 
         called = H.heap_read(eng, d, 'called')
         cb_names = [describe_callable(a) for a in args[:2]]
         eng.trace_event('Add', d, attr + ':' + ','.join(cb_names))
@@ -147,13 +211,13 @@ def delayedcall_method(eng, dc, attr, args, kwargs, fr, node):
     from .engine import PyRaise, Unsupported
     H.note_ref(eng, dc)
     if attr == 'active':
-        return H.heap_read(eng, dc, 'active')
+        return H.heap_read(eng, dc, 'is_active')
     if attr == 'cancel':
-        act = H.heap_read(eng, dc, 'active')
+        act = H.heap_read(eng, dc, 'is_active')
         n = eng.callcount.get('dccancel', 0) + 1
         eng.callcount['dccancel'] = n
         eng.prove('pre@DelayedCall.cancel#%d:active' % n, act.t, kind='pre')
-        H.heap_write(eng, dc, 'active', vbool(False))
+        H.heap_write(eng, dc, 'is_active', vbool(False))
         eng.trace_event('CancelTimer', dc, 'cancel')
         return VNONE
     if attr in ('getTime',):
@@ -229,7 +293,7 @@ def generic_ext_method(eng, ref, attr, args, kwargs, fr, node):
         if eng.branch(z3.FreshConst(z3.BoolSort(), 'raises_%s' % attr)):
             raise PyRaise(exc, msg='%s.%s raised' % (ref.ty[1], attr))
     if spec.get('trace'):
-        eng.trace_event(spec['trace'], ref, attr, args)
+        eng.trace_event(spec['trace'], ref, attr, list(args) + [kwargs.get(k_) for k_ in sorted(kwargs)])
     if spec.get('reentrant'):
         H.external_call(eng, '%s.%s' % (ref.ty[1], attr))
     ret = spec.get('ret')
@@ -242,8 +306,9 @@ def generic_ext_method(eng, ref, attr, args, kwargs, fr, node):
     if ret == 'Deferred':
         return new_deferred(eng, False)
     if ret == 'DelayedCall':
-        dc = H.alloc(eng, 'DelayedCall', {'active': vbool(True), 'delay': eng.num(args[0], REAL) if args else T.vreal(0)})
+        dc = H.alloc(eng, 'DelayedCall', {'is_active': vbool(True), 'delay': eng.num(args[0], REAL) if args else T.vreal(0)})
         H.note_ref(eng, dc)
+        eng.trace_event('Timer', dc, attr, list(args))
         return dc
     ty = T.parse_ty(ret)
     if ty[0] == 'ref':
@@ -267,7 +332,14 @@ def install(eng):
     def _fail(e, args, kwargs, fr, node):
         return new_deferred(e, True, True)
 
+    def _returnValue(e, args, kwargs, fr, node):
+        from .engine import _Return
+        raise _Return(args[0] if args else VNONE)
+
+    B.EXTERN['twisted.internet.defer.returnValue'] = _returnValue
+
     def _maybeDeferred(e, args, kwargs, fr, node):
+        B.checkpoint(e, 'call:maybeDeferred#%d' % site_ordinal_name(e, node, 'maybeDeferred'))
         f = args[0]
         try:
             r = e.call(f, list(args[1:]), dict(kwargs), fr, node)
@@ -334,8 +406,8 @@ def install(eng):
     def b_active(e, args, kwargs, fr, node):
         d = args[0]
         if d.ty[0] == 'opt':
-            return vbool(z3.And(z3.Not(T.is_none(d)), H.heap_read(e, T.opt_val(d), 'active').t))
-        return H.heap_read(e, d, 'active')
+            return vbool(z3.And(z3.Not(T.is_none(d)), H.heap_read(e, T.opt_val(d), 'is_active').t))
+        return H.heap_read(e, d, 'is_active')
 
     def b_running(e, args, kwargs, fr, node):
         d = args[0]
@@ -354,6 +426,38 @@ def install(eng):
         """events('Kind') -> tuple of the labels of the events of that kind appended in this activation (in order)"""
         kind = B.fmt_of(e, args[0], node.args[0], fr)
         return T.mk_tuple([T.vstr(str(ev[2])) for ev in (e.st.trace or []) if ev[0] == kind])
+
+    def b_event_arg(e, args, kwargs, fr, node):
+        """event_arg('Kind', k, j): j-th argument of the k-th event of that kind in this activation (k < 0: from the end)"""
+        kind = B.fmt_of(e, args[0], node.args[0], fr)
+        k = z3.simplify(args[1].t).as_long()
+        j = z3.simplify(args[2].t).as_long()
+        evs = [ev for ev in (e.st.trace or []) if ev[0] == kind]
+        try:
+            return evs[k][3][j]
+        except IndexError:
+            # no such event on this path: an unconstrained value (a clause that needs the event then cannot be proved)
+            return e.fresh(REAL, 'no_event')
+
+    def b_event_ref(e, args, kwargs, fr, node):
+        kind = B.fmt_of(e, args[0], node.args[0], fr)
+        k = z3.simplify(args[1].t).as_long()
+        evs = [ev for ev in (e.st.trace or []) if ev[0] == kind]
+        try:
+            return evs[k][1]
+        except IndexError:
+            raise Unsupported('event_ref(%s, %d): no such event' % (kind, k))
+
+    eng.builtin_names['event_arg'] = PyObj('builtin', b_event_arg)
+    eng.builtin_names['event_ref'] = PyObj('builtin', b_event_ref)
+
+    def b_exc_is(e, args, kwargs, fr, node):
+        """exc_is(failure, 'ClassName'): the Failure wraps an instance of that class (or a subclass)"""
+        f = args[0]
+        name = B.fmt_of(e, args[1], node.args[1], fr)
+        return vbool(exc_tag_in(e, H.heap_read(e, f, 'exc_tag').t, name))
+
+    eng.builtin_names['exc_is'] = PyObj('builtin', b_exc_is)
 
     def b_owner(e, args, kwargs, fr, node):
         d = args[0]
